@@ -25,7 +25,7 @@ RULE = ('A case is (module, optimize). Modules: the six shipped ones and random 
         'emitted triples with at least 2 claims or an Instantiate in the proof file.')
 ASSUMPTIONS = ['generated library arguments are well-formed patterns (positive mu, no constraint-violating plugs): the toolkit has no judgement for those and the resulting rejections are recorded under C04/C07']
 FLOORS = {'quick': {'cases': 1500, 'accepted': 1400, 'modules_with_2_claims': 300, 'modules_with_imports': 200, 'modules_with_generalization': 50,
-                    'optimised_with_save_load': 100, 'modules_with_unsorted_instantiation_keys': 30, 'modules_quantifier_with_fresh_declaring_plug': 20, 'emitted:ESubst': 10, 'emitted:SSubst': 10, 'shipped_cases': 12, 'binary_runs': 100,
+                    'optimised_with_save_load': 100, 'modules_with_unsorted_instantiation_keys': 30, 'modules_quantifier_with_fresh_declaring_plug': 20, 'emitted:ESubst': 10, 'emitted:SSubst': 10, 'shipped_cases': 12, 'tautology_library_cases': 20, 'binary_runs': 100,
                     **{f'emitted:{n}': 20 for n in ('EVar', 'SVar', 'Symbol', 'Implies', 'App', 'Exists', 'Mu', 'CleanMetaVar', 'Prop1', 'Prop2', 'Prop3',
                                                     'Quantifier', 'ModusPonens', 'Generalization', 'Instantiate', 'Save', 'Load', 'Publish')},
                     'emitted:MetaVar': 2}}
@@ -54,6 +54,8 @@ def shard(ctx):
     n = ctx.scale(1600, 48000) // 2
     for i in range(n):
         todo.append((f'gen{ctx.shard}_{i}', None))
+    for i in range(2 if ctx.quick else 20):
+        todo.append((f'taut{ctx.shard}_{i}', lambda: mw.tautology_module(rng).mod))
     for name, f in todo:
         try:
             b = mw.Built(f(), {'shipped'}, [name]) if f else mw.random_module(rng)
@@ -62,7 +64,9 @@ def shard(ctx):
             continue
         for opt in (False, True):
             ctx.count('cases')
-            if f:
+            if f and name.startswith('taut'):
+                ctx.count('tautology_library_cases')
+            elif f:
                 ctx.count('shipped_cases')
             try:
                 g, c, p = mw.serialize(b.mod, sc, 'm', opt)
